@@ -154,7 +154,38 @@ func propC06(w *World, r *Report) {
 			r.Check(n > 0, "X3", ru.name, "-", fmt.Sprintf("%d exit contexts", n))
 		}
 	}
+	checkThrottleStartFailureSurfaces(w, r, runs, "X3")
 	checkThrottlePassThrough(w, r, runs, "X4")
+	checkSettingsImmutable(w, r, "X2", "RecorderConfig", "ThermalRecorder", "Config") // min-secs as configured
+}
+
+// checkThrottleStartFailureSurfaces: whenever the wrapped recorder refuses to start a file inside a throttler call, that
+// call returns a non-nil error - the client (MotionProcessor) must learn that no file exists, otherwise it believes it is
+// recording and the throttler re-opens the file later on a frame that passed none of the start checks.
+func checkThrottleStartFailureSurfaces(w *World, r *Report, runs *throttleRuns, rule string) {
+	n := 0
+	var bad *Ctx
+	badEntry := ""
+	for _, ev := range runs.fault.sortedEvents() {
+		if ev.Kind != "exit" {
+			continue
+		}
+		for _, cx := range ev.Ctxs {
+			if cx.Ghosts["startfail:wrapped"] != 1 {
+				continue
+			}
+			n++
+			if cx.Ghosts["ret0:nonnil"] != 1 && bad == nil {
+				bad, badEntry = cx, ev.Entry
+			}
+		}
+	}
+	name := "a start refused by the wrapped recorder is returned to the throttler's caller as an error"
+	if bad != nil {
+		r.Fail(rule, name, "-", "throttle."+badEntry+" returns nil although the wrapped StartRecording failed: "+describeCtx(bad), bad.Trace)
+	} else {
+		r.Check(n > 0, rule, name, "-", fmt.Sprintf("%d exit contexts with a failed wrapped start", n))
+	}
 }
 
 // X4: provenance of the arguments handed to the wrapped recorder, decided on the fix-point with provenance
@@ -374,6 +405,7 @@ func propC05(w *World, r *Report) {
 	}
 	r.Check(nClock >= 1, "G4", "production constructor passes a clock", "-", fmt.Sprint(nClock))
 	checkThrottleWiring(w, r)
+	checkSettingsImmutable(w, r, "T2", "ThermalThrottler", "RecorderConfig", "ThermalRecorder", "Config") // bucket-size, min-refill and min-secs as configured
 }
 
 func relationOnCall(cl cmpLabel, operand string, outcome int8) string {
